@@ -9,8 +9,10 @@ protocol documents it: the value does not decrease along the classic enumeration
 is_dependent_on_input_at, is_output_equal_to_input(_negation), get_significant_inputs_of, get_truth_table,
 find_negations_to_make_symmetric (a set of input negations under which the chosen outputs are symmetric; None exactly when
 there is none).
-Shapes are width instances (like the arithmetic widths of C07-C09): all functions of the shape are covered, larger shapes and the
-Circuit representation stay with the bounded stand-in."""
+  Circuit      the real circuit  g = ty(x0, x1)  (outputs [g] or [g, x1]) with a SYMBOLIC binary gate type ty: the sixteen binary
+               types are the sixteen functions of two inputs; the queries go through the real evaluate_circuit.
+Shapes are width instances (like the arithmetic widths of C07-C09): all functions of the shape are covered, larger shapes and
+circuits of other shapes stay with the bounded stand-in."""
 import itertools
 import z3
 
@@ -19,6 +21,8 @@ from ..pyvc.prove import Contract
 
 TT = 'cirbo/core/truth_table.py'
 PF = 'cirbo/core/python_function.py'
+CIRC = 'cirbo/core/circuit/circuit.py'
+BINARY_TYPES = ('AND', 'OR', 'NAND', 'NOR', 'XOR', 'NXOR', 'GT', 'LT', 'GEQ', 'LEQ', 'LIFF', 'RIFF', 'LNOT', 'RNOT', 'ALWAYS_TRUE', 'ALWAYS_FALSE')
 
 
 def bits(j, n):
@@ -68,6 +72,14 @@ def d_symmetric_under(T, n, outs, neg):
     return z3.And([T[o][idx(i)] == T[o][idx(j)] for o in outs for i in r for j in r if i < j and bin(i).count('1') == bin(j).count('1')] or [z3.BoolVal(True)])
 
 
+def same(it, v, want):
+    """the returned value v denotes the Boolean `want` (a three-valued gate state must be the DEFINED state of that Boolean)"""
+    from ..pyvc.values import ST_T, ST_F
+    if isinstance(v, Sym) and v.is_state():
+        return v.t == z3.If(want, ST_T, ST_F)
+    return bool_term(it, v) == want
+
+
 def bool_term(it, v):
     if isinstance(v, bool):
         return z3.BoolVal(v)
@@ -81,13 +93,37 @@ def bool_term(it, v):
 class Query(Contract):
     def __init__(self, kind, n, m, query, args=(), kwargs=None):
         self.kind, self.n, self.m, self.q, self.args, self.kw = kind, n, m, query, tuple(args), dict(kwargs or {})
-        self.relpath = TT if kind == 'TruthTable' else PF
+        self.relpath = TT if kind == 'TruthTable' else (PF if kind == 'PyFunction' else CIRC)
         self.qualname = kind + '.' + query
         a = ','.join(str(x) for x in self.args) + (',' if self.args and self.kw else '') + ','.join(f'{k}={v}' for k, v in self.kw.items())
         self.name = f'{kind}.{query}({a})/{n}in{m}out'
 
     def make(self, it, ctx, T):
         n, m = self.n, self.m
+        if self.kind == 'Circuit':
+            # the real Circuit  x0, x1, g = <ty>(x0, x1)  with outputs [g] (m = 1) or [g, x1] (m = 2: an output that is an input),
+            # where <ty> is a SYMBOLIC binary gate type: the sixteen binary types are the sixteen functions of two inputs, so the
+            # table entries of output 0 are T[0][j] := OP(ty)(bits of j)
+            from ..pyvc.values import GT, GTypeSort
+            from ..pyvc import theory
+            if n != 2 or m not in (1, 2):
+                raise Unsupported('Circuit shape')
+            ty = z3.Const('ty', GTypeSort)
+            ctx.assume(z3.Or([ty == GT[t] for t in BINARY_TYPES]))
+            for j in range(4):
+                b = bits(j, 2)
+                val = z3.BoolVal(False)
+                for t in BINARY_TYPES:
+                    val = z3.If(ty == GT[t], theory.OPz(t, [z3.BoolVal(b[0]), z3.BoolVal(b[1])]), val)
+                ctx.assume(T[0][j] == val)
+                if m == 2:
+                    ctx.assume(T[1][j] == z3.BoolVal(b[1]))
+            cm = it.load_module('cirbo.core.circuit.circuit')
+            c = it.call(cm.env['Circuit'], [], {})
+            it.call(it.getattr(c, 'add_inputs'), [VList(['x0', 'x1'])], {})
+            it.call(it.getattr(c, 'emplace_gate'), ['g', Sym(ty), ('x0', 'x1')], {})
+            it.call(it.getattr(c, 'set_outputs'), [VList(['g'] + (['x1'] if m == 2 else []))], {})
+            return c
         if self.kind == 'TruthTable':
             mod = it.load_module('cirbo.core.truth_table')
             tab = VList([VList([Sym(T[o][j]) for j in range(1 << n)]) for o in range(m)])
@@ -134,19 +170,19 @@ class Query(Contract):
                     r = z3.If(z3.And([x if b else z3.Not(x) for x, b in zip(xs, bits(j, n))]) if n else z3.BoolVal(True), T[o][j], r)
                 return r
             if q == 'evaluate_at':
-                yield ('value-of-the-table-at-the-canonical-index', bool_term(it, result) == at(a[0]))
+                yield ('value-of-the-table-at-the-canonical-index', same(it, result, at(a[0])))
             else:
                 vals = list(it.iterate(result))
                 yield ('one-value-per-output', z3.BoolVal(len(vals) == m))
                 for o, v in enumerate(vals[:m]):
-                    yield (f'output-{o}-is-the-table-entry-at-the-canonical-index', bool_term(it, v) == at(o))
+                    yield (f'output-{o}-is-the-table-entry-at-the-canonical-index', same(it, v, at(o)))
             return
         if q == 'get_truth_table':
             rows = [list(it.iterate(r)) for r in it.iterate(result)]
             ok = len(rows) == m and all(len(r) == (1 << n) for r in rows)
             yield ('shape', z3.BoolVal(ok))
             if ok:
-                yield ('entries', z3.And([bool_term(it, rows[o][j]) == T[o][j] for o in range(m) for j in range(1 << n)]))
+                yield ('entries', z3.And([same(it, rows[o][j], T[o][j]) for o in range(m) for j in range(1 << n)]))
             return
         if q == 'find_negations_to_make_symmetric':
             outs = list(a[0])
@@ -181,7 +217,7 @@ class Query(Contract):
             'is_output_equal_to_input': lambda: d_equal_input(T, n, a[0], a[1], False),
             'is_output_equal_to_input_negation': lambda: d_equal_input(T, n, a[0], a[1], True),
         }[q]()
-        yield ('equals-the-definition', bool_term(it, result) == want, {'witness': q})
+        yield ('equals-the-definition', same(it, result, want), {'witness': q})
 
     def replay(self, values):
         """native replay: the query on every function of the shape (<= 256 tables per output) against the definition"""
@@ -189,10 +225,27 @@ class Query(Contract):
         n, m = self.n, self.m
         if (1 << n) * m > 8:
             return None
-        mod = importlib.import_module('cirbo.core.truth_table' if self.kind == 'TruthTable' else 'cirbo.core.python_function')
-        for flat in itertools.product((False, True), repeat=(1 << n) * m):
-            tab = [list(flat[o * (1 << n):(o + 1) * (1 << n)]) for o in range(m)]
-            if self.kind == 'TruthTable':
+        if self.kind == 'Circuit':
+            from ..spec import ops as SO
+            from cirbo.core.circuit import Circuit, gate as G
+            cases = []
+            for t in BINARY_TYPES:
+                c = Circuit()
+                c.add_inputs(['x0', 'x1'])
+                c.emplace_gate('g', getattr(G, t), ('x0', 'x1'))
+                c.set_outputs(['g'] + (['x1'] if m == 2 else []))
+                tab = [[bool(SO.OP(t, bits(j, 2))) for j in range(4)]] + ([[bits(j, 2)[1] for j in range(4)]] if m == 2 else [])
+                cases.append((tab, c, f'{t}(x0, x1), outputs {c.outputs}'))
+        else:
+            mod = importlib.import_module('cirbo.core.truth_table' if self.kind == 'TruthTable' else 'cirbo.core.python_function')
+            cases = []
+            for flat in itertools.product((False, True), repeat=(1 << n) * m):
+                tab = [list(flat[o * (1 << n):(o + 1) * (1 << n)]) for o in range(m)]
+                cases.append((tab, None, None))
+        for tab, f, descr in cases:
+            if f is not None:
+                pass
+            elif self.kind == 'TruthTable':
                 f = mod.TruthTable(tab)
             else:
                 f = mod.PyFunction(lambda xs, tab=tab: [tab[o][sum((1 << (n - 1 - k)) for k, x in enumerate(xs) if x)] for o in range(m)], n, output_size=m)
@@ -213,7 +266,7 @@ class Query(Contract):
                     'is_output_equal_to_input_negation': lambda: d_equal_input(T, n, a[0], a[1], True)}[self.q]()
             w = z3.is_true(z3.simplify(want))
             if bool(got) != w:
-                return False, f'{self.kind}.{self.q}{self.args}{self.kw or ""} on table {[[int(v) for v in r] for r in tab]} returns {got}, definition gives {w}'
+                return False, f'{self.kind}.{self.q}{self.args}{self.kw or ""} on {descr or "table"} {[[int(v) for v in r] for r in tab]} returns {got}, definition gives {w}'
         return True, 'the query agrees with the definition on every function of the shape'
 
 
@@ -241,4 +294,22 @@ def contracts(deep):
                     out.append(Query(kind, n, m, 'is_dependent_on_input_at', [o, i]))
                     out.append(Query(kind, n, m, 'is_output_equal_to_input', [o, i]))
                     out.append(Query(kind, n, m, 'is_output_equal_to_input_negation', [o, i]))
+    for n, m in ((2, 1), (2, 2)):
+        kind = 'Circuit'
+        out.append(Query(kind, n, m, 'evaluate'))
+        out.append(Query(kind, n, m, 'is_constant'))
+        out.append(Query(kind, n, m, 'is_symmetric'))
+        for inv in (False, True):
+            out.append(Query(kind, n, m, 'is_monotone', kwargs={'inverse': inv}))
+        for o in range(m):
+            out.append(Query(kind, n, m, 'evaluate_at', [o]))
+            out.append(Query(kind, n, m, 'is_constant_at', [o]))
+            out.append(Query(kind, n, m, 'is_symmetric_at', [o]))
+            out.append(Query(kind, n, m, 'get_significant_inputs_of', [o]))
+            for inv in (False, True):
+                out.append(Query(kind, n, m, 'is_monotone_at', [o], {'inverse': inv}))
+            for i in range(n):
+                out.append(Query(kind, n, m, 'is_dependent_on_input_at', [o, i]))
+                out.append(Query(kind, n, m, 'is_output_equal_to_input', [o, i]))
+                out.append(Query(kind, n, m, 'is_output_equal_to_input_negation', [o, i]))
     return out
